@@ -286,6 +286,8 @@ def load_corpus():
 
 
 def source_facts():
+    """translator-lite: only what the tie really depends on (names and the presence of the
+    mechanism), so that a refactoring of signatures or helpers does not break an obligation"""
     src = open(os.path.join(vlib.REPO, "internal/api/getmessages.go")).read()
     m = re.search(r"func \(api \*HTTP\) getMessages\(.*?\n}\n", src, re.S)
     body = m.group(0) if m else ""
@@ -293,10 +295,10 @@ def source_facts():
     hbody = h.group(0) if h else ""
     return {
         "getMessages_found": bool(m),
-        "getMessages_signature": bool(re.search(r"getMessages\(ctx context\.Context, lastSeen robust\.Id, msgschan chan<- \[\]\*robust\.Message\)", body)),
-        "follows_GetNext": "GetNext(ctx, lastSeen)" in body,
-        "handler_filters_by_session": bool(re.search(r"msg\.Type != robust\.Ping && !msg\.InterestingFor\[session\.Id\]", hbody)),
-        "handler_starts_getMessages_with_lastseen": "go api.getMessages(ctx, lastSeen, msgschan)" in hbody,
+        "getMessages_sends_batches_on_a_channel": bool(re.search(r"getMessages\([^)]*chan<- \[\]\*robust\.Message", body)),
+        "follows_GetNext": bool(re.search(r"\.GetNext\(ctx,", body)),
+        "messages_filtered_by_session": bool(re.search(r"InterestingFor\[session\.Id\]", src)),
+        "handler_starts_getMessages_with_lastseen": bool(re.search(r"go api\.getMessages\([^)]*lastSeen[^)]*\)", hbody)),
     }
 
 
@@ -345,6 +347,11 @@ def run(ck, replay):
         ck.violation("tie-broken:go-driver", {"what": "Go correspondence driver did not build/run against the current tree",
                                               "output": goout[-3000:], "obligation": "correspondence apidrv (res)"}, concrete=False)
         return
+    herr = [g for g in glines if g.startswith("res harness-error")]
+    if herr:
+        ck.violation("tie-broken:go-driver", {"what": "the Go driver could not drive getMessages of the current tree", "output": herr[0],
+                                              "obligation": "correspondence apidrv (res)"}, concrete=False)
+        return
     if not getattr(ck, "model_ok", False):
         ck.violation("tie-broken:model", {"what": "model driver could not be built", "output": ck.model_out[-3000:]}, concrete=False)
         return
@@ -355,7 +362,7 @@ def run(ck, replay):
 
     ck.cov["evaluations"] = len(cases)
     nontriv, mism, monfail = set(), [], []
-    stats = {"reconnects": 0, "midbatch_resumes": 0, "lagging_connects": 0, "compactions": 0, "messages_received": 0, "nodes": {}}
+    stats = {"reconnects": 0, "midbatch_resumes": 0, "midbatch_resumes_after_foreign_reply": 0, "midbatch_resume_positions": {}, "lagging_connects": 0, "compactions": 0, "messages_received": 0, "nodes": {}}
     for i, c in enumerate(cases):
         g = glines[i] if i < len(glines) else None
         # non-trivial: the client received messages on at least two connections
@@ -383,6 +390,10 @@ def run(ck, replay):
                 b = [b for b in c["stream"] if b[0] == last[0]]
                 if b and 0 < last[1] < len(b[0][1]):
                     stats["midbatch_resumes"] += 1
+                    key = "%d/%d" % (last[1], len(b[0][1]))
+                    stats["midbatch_resume_positions"][key] = stats["midbatch_resume_positions"].get(key, 0) + 1
+                    if any(c["sess"] not in m[2] for m in b[0][1][:last[1]]) and any(c["sess"] in m[2] for m in b[0][1][last[1]:]):
+                        stats["midbatch_resumes_after_foreign_reply"] += 1
             elif e[0] == "x":
                 conn = None
             elif e[0] == "r" and conn is not None:
